@@ -4,4 +4,4 @@
 From Coq Require Import ExtrOcamlBasic.
 From GO Require Import Base.Str Model.Tokenizer Model.Option Model.Tree Model.Parse Model.Build Model.Complete Model.Dag Run.Check.
 Extraction Language OCaml.
-Extraction "model.ml" check_case check_tcase check_dcase run_dcase dmask_all check_bcase run_bcase canon check_ccase run_ccase comp_stdout comp_stderr check_gcase explain_gcase model_view mask_all mkMask is_option N.of_nat N.mul N.add Z.mul Z.add Z.opp Z.of_N N.to_nat.
+Extraction "model.ml" check_case check_tcase check_dcase run_dcase dmask_all check_bcase check_bcase_with mkBMask run_bcase canon check_ccase run_ccase comp_stdout comp_stderr check_gcase explain_gcase model_view mask_all mkMask is_option N.of_nat N.mul N.add Z.mul Z.add Z.opp Z.of_N N.to_nat.
